@@ -286,6 +286,7 @@ density_sketch<T, K, A> density_sketch<T, K, A>::deserialize(std::istream& is, c
   const auto num_retained = read<uint32_t>(is);
   const auto n = read<uint64_t>(is);
   if (!is.good()) throw std::runtime_error("error reading from std::istream");
+  check_num_retained(num_retained);
 
   // levels arrays
   size_t pt_size = sizeof(T) * dim;
@@ -349,6 +350,7 @@ density_sketch<T, K, A> density_sketch<T, K, A>::deserialize(const void* bytes, 
   ptr += copy_from_mem(ptr, num_retained);
   uint64_t n;
   ptr += copy_from_mem(ptr, n);
+  check_num_retained(num_retained);
 
   // Predicting the number of levels seems hard so determining the exact remaining
   // size is also hard. But we need at least num_retained * dim * sizeof(T)
@@ -388,6 +390,12 @@ template<typename T, typename K, typename A>
 void density_sketch<T, K, A>::check_k(uint16_t k) {
   if (k < 2)
     throw std::invalid_argument("k must be > 1. Found: " + std::to_string(k));
+}
+
+template<typename T, typename K, typename A>
+void density_sketch<T, K, A>::check_num_retained(uint32_t num_retained) {
+  if (num_retained == 0)
+    throw std::invalid_argument("Possible corruption. No retained items in a sketch that is not empty");
 }
 
 template<typename T, typename K, typename A>
